@@ -22,7 +22,7 @@ LEVEL_NOTE = ("theorems quantify over every fault oracle on the calls of the res
 RULE = ("for each seeded world (one argument; home, .Trash/uid, .Trash-uid after an insecure .Trash, --trash-dir; "
         "file/tree/symlink/empty; with and without a name collision): every (kind, occurrence) of a mutating call of the "
         "fault-free run x 14 errnos, worlds cycling through every kind of first candidate, a fixed share with -f / -v, persistent faults per (kind, errno), stat-class faults at sampled positions; thorough "
-        "adds all pairs; a case is distinct by (world, fault plan) and non-trivial when the fault was actually delivered")
+        "adds all pairs; a case is distinct by (world, fault plan) and non-trivial when the fault was actually delivered; kernel-made write faults (RLIMIT_FSIZE 0, and 20: a short write first) for short paths and for Path lines of about 9 KiB - reported, argument untouched, no info file left")
 
 
 def plans_for(trace, reads, tier, rng, read_log=()):
@@ -110,6 +110,61 @@ def eval_task(task):
     return out
 
 
+def fsize_task(task):
+    """a write fault made by the kernel (RLIMIT_FSIZE = 0: no regular file may grow), so that it reaches the program
+    whatever routine it writes the .trashinfo with - for ordinary paths and for paths whose percent-encoded Path line is
+    longer than any stream buffer (12 components of 250 bytes of non-ASCII text: about 9 KiB encoded).  Judged on the real
+    run alone: the failure is reported (non-zero exit), the argument is untouched, and no info file - empty, partial or
+    whole - is left behind in any trash directory."""
+    from ..model import W, put_argv, snap_to_state
+    from ..sandbox import MODEL_ROOT as R
+    i = task["i"]
+    rng = task_rng("C17fsize", task["seed"], i)
+    w = W()
+    home = w.dir(R + b"/home/u")
+    t = home + b"/.local/share/Trash"
+    if i % 2 == 0:
+        w.dir(t, 0o700)
+        w.dir(t + b"/files", 0o700)
+        w.dir(t + b"/info", 0o700)
+        w.file(t + b"/info/older.trashinfo", b"[Trash Info]\nPath=/old\nDeletionDate=2020-01-01T00:00:00\n", 0o600)
+        w.file(t + b"/files/older", b"older")
+    d = home + b"/w"
+    if i % 3 != 1:
+        comp = ("\u00e9" * 125).encode()
+        for k in range(12):
+            d += b"/" + comp[:-2] + b"%02d" % k
+    w.dir(d)
+    name = rng.choice([b"victim", b"a b", "caf\u00e9".encode()])
+    kind = rng.choice(["file", "tree"])
+    if kind == "file":
+        w.file(d + b"/" + name, b"keep me whole")
+    else:
+        w.file(d + b"/" + name + b"/inner", b"keep me whole")
+    cwd = d if i % 4 == 3 else home
+    arg = d + b"/" + name if cwd != d else name
+    opts = {}
+    if i % 5 == 4:
+        opts["trashDir"] = home + b"/ct"
+    world = w.world(env={"HOME": home}, uid=1000, cwd=cwd, cmd="put", args=[arg], opts=opts, argv=put_argv(opts, [arg]), stdin=None,
+                    randints=[1, 2, 3], meta=[{"class": "entry", "kind": kind, "spelling": "abs", "entry": d + b"/" + name, "where": "home"}])
+    # (0: every write fails at once; 20: the first write is a SHORT write - 20 bytes taken, no error - and only the next one fails)
+    lim = 20 if (i // 2) % 3 == 2 else 0
+    o = run_world(world, {"fsize": lim})
+    before, after = snap_to_state(o["before"]), snap_to_state(o["after"])
+    problems = []
+    if o.get("exit") in (0, None):
+        problems.append("exit status %r although the info file could not be written" % (o.get("exit"),))
+    for q in before:
+        if after.get(q) != before[q] and not (before[q][0] == "d" and q in after and after[q][0] == "d"):
+            problems.append("%r changed or went away" % q[-60:])
+    for q in after:
+        if q not in before and after[q][0] != "d":
+            problems.append("left behind: %r (%d bytes)" % (q[-60:], len(after[q][1]) if isinstance(after[q][1], bytes) else -1))
+    return {"key": (i, kind, len(d), lim), "long": len(d) > 1000,
+            "bad": [{"verdict": "; ".join(problems[:5]), "stderr": repr(o["stderr"][-300:]), "exc": o.get("exc"), "world": jsonable(world)}] if problems else []}
+
+
 def base_task(task):
     # every kind of first candidate and, with each of them, -f (which silences nonexistent arguments only) within any 18 worlds
     i = task["i"] + task["seed"]
@@ -167,6 +222,12 @@ def run(tier, seed):
         for b in r["bad"]:
             ck.violation(b["verdict"], b["sig"], {"world": r.get("world"), "plan": r.get("plan"), "oracle": b["oracle"],
                                                   "verdict": b["verdict"], "stderr": r.get("stderr")})
+    for r in run_tasks(fsize_task, [{"seed": seed, "i": i} for i in range(12 if tier == "quick" else 60)]):
+        if "machinery" in r:
+            raise MachineryError(r["machinery"])
+        ck.case(("fsize", r["key"]), tags=["kernel-write-fault:" + ("long-path" if r["long"] else "short-path")])
+        for b in r["bad"]:
+            ck.violation("kernel-write-fault-leaves-nothing-behind", {"oracle": "C17-fsize"}, b)
     ck.exhaustive = False
     ck.extra["exhaustive_subdomains"] = ["every (kind, occurrence) of a mutating call of each base run x %d errnos" % len(ERRNOS)]
     return ck.finish(info, LEVEL_NOTE, RULE)
